@@ -1556,6 +1556,9 @@ struct ExtractSpec {
     /// indices of `//@proof at-call` blocks: an obligation about each execution of the named call; if the
     /// function no longer contains the call there is nothing to oblige (other contracts decide what its absence means)
     optional_proofs: std::collections::HashSet<usize>,
+    /// R-ABS: (needle, replacement statement): the unique top-level statement containing the needle is NOT verified
+    /// text; it is replaced by the given call of a shim declared in the unit (assumed contract), and logged
+    abstracts: Vec<(String, String)>,
     line: usize,
     spec_only: bool,
     iter_params: Vec<String>,
@@ -1828,6 +1831,18 @@ impl Unit {
             SelfRen.visit_block_mut(&mut block);
             block.stmts.insert(0, parse_quote! { let mut __fjx_self = self; });
             log.push("R-MUTSELF `mut self` receiver desugared to `let mut __fjx_self = self;`".into());
+        }
+        // R-ABS: a named top-level statement is replaced by a call of a declared shim (its text is dropped, and said so)
+        for (needle, repl) in spec.abstracts.iter() {
+            let n = nospace(needle);
+            let hits: Vec<usize> = block.stmts.iter().enumerate().filter(|(_, s)| tok(*s).contains(&n)).map(|(i, _)| i).collect();
+            if hits.len() != 1 {
+                die(&format!("lost anchor: R-ABS anchor `{needle}` matched {} top-level statements of {}", hits.len(), spec.name));
+            }
+            let new: Stmt = syn::parse_str::<Stmt>(repl).unwrap_or_else(|_| die(&format!("R-ABS replacement `{repl}` is not a statement")));
+            let old_toks = token_strings(block.stmts[hits[0]].to_token_stream()).len();
+            block.stmts[hits[0]] = new;
+            log.push(format!("R-ABS statement containing `{needle}` ({old_toks} tokens) NOT under contract: replaced by `{repl}` (assumed contract of that shim)"));
         }
         // R-SLICE: keep the statements up to and including the anchor statement; the rest is not verified text
         if let Some(needle) = &spec.until {
@@ -2850,6 +2865,10 @@ impl Unit {
                                         sec = Sec::Contract;
                                     }
                                     "world" => spec.world_pats.extend(rest.split_whitespace().map(|s| s.to_string())),
+                                    "abstract" => {
+                                        let (needle, repl) = rest.split_once("=>").unwrap_or_else(|| die("bad //@abstract (needle => statement)"));
+                                        spec.abstracts.push((needle.trim().to_string(), repl.trim().to_string()));
+                                    }
                                     "loop" => {
                                         let n: usize = rest.parse().unwrap_or_else(|_| die("bad //@loop"));
                                         spec.loops.entry(n).or_default();
